@@ -435,3 +435,10 @@ M("C20", "isplit-memoised", [(AL, "def isplit(num, nchunks):", "import functools
   "the array returned by isplit is shared between calls")
 M("C14", "binner-keeps-min-from-previous-call", [(SU, "    def dohist(", "    _sticky = {}\n\n    def dohist(")],
   "control: an unused class attribute", control=True)
+M("C10", "inverse-fit-by-normal-equations", [(WC, "        xcoeffs = np.linalg.lstsq(design, x, rcond=None)[0] / scale\n        ycoeffs = np.linalg.lstsq(design, y, rcond=None)[0] / scale\n",
+                                              "        ata = np.inner(amatrix, amatrix)\n        xcoeffs = np.linalg.solve(ata, np.inner(amatrix, x))\n        ycoeffs = np.linalg.solve(ata, np.inner(amatrix, y))\n")],
+  "the repair bb75481 reverted: normal equations, singular to working precision for a reference pixel far outside the image")
+M("C10", "inverse-fit-unscaled-lstsq", [(WC, "        design = (amatrix / scale[:, np.newaxis]).T\n", "        scale[:] = 1.0\n        design = (amatrix / scale[:, np.newaxis]).T\n")],
+  "least squares without column scaling: high-order SIP monomials fall under the rank cutoff")
+M("C18", "interplin-integer-inputs-not-converted", [(SU, "    if v.dtype.kind in \"iub\":\n        v = v.astype(\"f8\")\n", "")],
+  "the repair e67550b reverted for the table values: differences of unsigned values wrap around")
